@@ -80,6 +80,7 @@ class Scenario:
         self.events = []
         self.ttls = TTLS
         self.sub_counts = [1, 1, 2]
+        self.fav_subs = None
         self.lost = False
 
     # ---------------- inputs
@@ -106,15 +107,26 @@ class Scenario:
 
     def in_subscribe(self, impl, kind="sub"):
         rng = self.rng
+        if self.fav_subs is None:
+            # a small alphabet of subscriptions per scenario so that refreshes / stops of the SAME key are frequent
+            self.fav_subs = [(rng.choice(self.peers), rng.choice(SERVICES)[:3], rng.choice([5, 5, 6]), rng.choice([0, 0, 1, 15]), 1)
+                             for _ in range(rng.choice([1, 2, 3]))]
         p = rng.choice(self.peers)
+        fav = None
+        if rng.random() < 0.75:
+            fav = rng.choice(self.fav_subs)
+            p = fav[0]
         mc = rng.random() < 0.12
         entries, info = [], []
-        for _ in range(rng.choice(self.sub_counts)):
-            sid, iid, maj, _mi = rng.choice(SERVICES)
-            egid = rng.choice([5, 5, 6, 9])
-            cnt = rng.choice([0, 0, 0, 1, 15])
+        for j in range(rng.choice(self.sub_counts)):
+            if fav is not None and j == 0:
+                _p, (sid, iid, maj), egid, cnt, neps = fav
+            else:
+                sid, iid, maj, _mi = rng.choice(SERVICES)
+                egid = rng.choice([5, 5, 6, 9])
+                cnt = rng.choice([0, 0, 0, 1, 15])
+                neps = rng.choice([1, 1, 1, 1, 0, 2])
             ttl = 0 if (kind == "stopsub" or rng.random() < 0.25) else rng.choice(self.ttls)
-            neps = rng.choice([1, 1, 1, 1, 0, 2])
             opts = tuple(endpoint(p.n, 5000 + k) for k in range(neps))
             if rng.random() < 0.15:
                 opts += (H.SOMEIPSDConfigOption(configs=(("a", "b"),)),)
